@@ -433,7 +433,9 @@ class ExprMixin:
             idx = self.as_int(idx, node)
             ln = ty.len(base.t)
             self.may_raise("IndexError", z3.And(idx.t >= -ln, idx.t < ln), node, "index")
-            i = z3.simplify(z3.If(idx.t < 0, idx.t + ln, idx.t))
+            # in specifications an index is a plain position (no python negative-index wrap-around):
+            # keeps quantified contract clauses free of `ite` so the solver can use them as triggers
+            i = idx.t if self.spec_mode else z3.simplify(z3.If(idx.t < 0, idx.t + ln, idx.t))
             place = ("item", base.place, i, ty) if base.place is not None else None
             self.ctx.note_ty(ty)
             return SV(ty.elem, z3.Select(ty.arr(base.t), i), place)
